@@ -93,12 +93,15 @@ func points3(bb sdf.Box3, n int, rng *Rng) []v3.Vec {
 	return ps
 }
 
-// hammer: G goroutines evaluate all n points (each starting at a different phase) R times.
-func hammer(n, G, R int, ref []float64, eval func(i int) float64, res *childResult) {
+// hammer: G goroutines evaluate all n points (each starting at a different phase) R times;
+// every value is kept: vals[g][r*n+i].
+func hammer(n, G, R int, eval func(i int) float64, res *childResult) [][]float64 {
 	var wg sync.WaitGroup
 	var mu sync.Mutex
 	start := make(chan struct{})
+	vals := make([][]float64, G)
 	for g := 0; g < G; g++ {
+		vals[g] = make([]float64, R*n)
 		wg.Add(1)
 		go func(g int) {
 			defer wg.Done()
@@ -110,30 +113,43 @@ func hammer(n, G, R int, ref []float64, eval func(i int) float64, res *childResu
 				}
 			}()
 			<-start
-			bad, first := 0, ""
 			for r := 0; r < R; r++ {
 				for k := 0; k < n; k++ {
 					i := (k + g*n/G) % n
-					d := eval(i)
-					if math.Float64bits(d) != math.Float64bits(ref[i]) {
-						bad++
-						if first == "" {
-							first = fmt.Sprintf("point #%d: concurrent %x (%v) sequential %x (%v)", i, math.Float64bits(d), d, math.Float64bits(ref[i]), ref[i])
-						}
-					}
+					vals[g][r*n+i] = eval(i)
 				}
 			}
-			mu.Lock()
-			res.Evals += R * n
-			res.Mismatches += bad
-			if res.First == "" {
-				res.First = first
-			}
-			mu.Unlock()
 		}(g)
 	}
 	close(start)
 	wg.Wait()
+	return vals
+}
+
+func sameBits(a, b []float64) bool {
+	for i := range a {
+		if math.Float64bits(a[i]) != math.Float64bits(b[i]) {
+			return false
+		}
+	}
+	return true
+}
+
+func compare(vals [][]float64, n, R int, ref []float64, res *childResult) {
+	for g := range vals {
+		for r := 0; r < R; r++ {
+			for i := 0; i < n; i++ {
+				d := vals[g][r*n+i]
+				res.Evals++
+				if math.Float64bits(d) != math.Float64bits(ref[i]) {
+					res.Mismatches++
+					if res.First == "" {
+						res.First = fmt.Sprintf("point #%d: concurrent %x (%v) sequential %x (%v)", i, math.Float64bits(d), d, math.Float64bits(ref[i]), ref[i])
+					}
+				}
+			}
+		}
+	}
 }
 
 func runFamily(f *concshapes.Family, env *concshapes.Env, seed uint64, n, G, R, cells int) (res childResult) {
@@ -144,54 +160,72 @@ func runFamily(f *concshapes.Family, env *concshapes.Env, seed uint64, n, G, R, 
 		}
 	}()
 	rng := NewRng(seed)
+	// A, A2: two instances built and evaluated sequentially; B: the instance that is hammered
 	a2, a3, err := f.Make(env)
 	if err != nil {
 		res.Err = "constructor: " + err.Error()
 		return
 	}
+	aa2, aa3, _ := f.Make(env)
 	b2, b3, err := f.Make(env)
 	if err != nil {
 		res.Err = "constructor: " + err.Error()
 		return
 	}
+	var evalA, evalAA, evalB func(i int) float64
 	if a2 != nil {
 		ps := points2(a2.BoundingBox(), n, rng)
 		// repeated points: memoising wrappers see hits and misses at the same time
 		for i := n / 2; i < n; i++ {
 			ps[i] = ps[rng.Intn(n/2)]
 		}
-		ref := make([]float64, n)
-		for i, p := range ps {
-			ref[i] = a2.Evaluate(p)
-		}
-		hammer(n, G, R, ref, func(i int) float64 { return b2.Evaluate(ps[i]) }, &res)
-		if c, ok := b2.(*sdf.CacheSDF2); ok {
-			res.CacheInfo = c.String()
-			ids := map[v2.Vec]int{}
-			for r := 0; r < G*R; r++ {
-				for _, p := range ps {
-					if _, ok := ids[p]; !ok {
-						ids[p] = len(ids)
+		evalA = func(i int) float64 { return a2.Evaluate(ps[i]) }
+		evalAA = func(i int) float64 { return aa2.Evaluate(ps[i]) }
+		evalB = func(i int) float64 { return b2.Evaluate(ps[i]) }
+		defer func() {
+			if c, ok := b2.(*sdf.CacheSDF2); ok && res.Err == "" {
+				res.CacheInfo = c.String()
+				ids := map[v2.Vec]int{}
+				for r := 0; r < G*R+1; r++ { // + the sequential pass after the hammering
+					for _, p := range ps {
+						if _, ok := ids[p]; !ok {
+							ids[p] = len(ids)
+						}
+						res.CacheIDs = append(res.CacheIDs, ids[p])
 					}
-					res.CacheIDs = append(res.CacheIDs, ids[p])
 				}
 			}
-		}
+		}()
 	} else {
 		ps := points3(a3.BoundingBox(), n, rng)
-		ref := make([]float64, n)
-		for i, p := range ps {
-			ref[i] = a3.Evaluate(p)
-		}
-		hammer(n, G, R, ref, func(i int) float64 { return b3.Evaluate(ps[i]) }, &res)
+		evalA = func(i int) float64 { return a3.Evaluate(ps[i]) }
+		evalAA = func(i int) float64 { return aa3.Evaluate(ps[i]) }
+		evalB = func(i int) float64 { return b3.Evaluate(ps[i]) }
 	}
+	refA, refAA, refB := make([]float64, n), make([]float64, n), make([]float64, n)
+	for i := 0; i < n; i++ {
+		refA[i] = evalA(i)
+		refAA[i] = evalAA(i)
+	}
+	vals := hammer(n, G, R, evalB, &res)
+	for i := 0; i < n; i++ {
+		refB[i] = evalB(i) // the hammered instance, sequentially, afterwards
+	}
+	if !sameBits(refA, refAA) {
+		res.Err = "two instances built one after the other differ sequentially although the random source was reset: construction is not reproducible"
+		return
+	}
+	compare(vals, n, R, refA, &res)
+	compare([][]float64{refB}, n, 1, refA, &res)
 	if cells > 0 {
-		c2, c3, _ := f.Make(env)
+		// a fresh instance rendered with all CPUs, then the same instance again with one
+		_, _ = a2, a3
 		d2, d3, _ := f.Make(env)
-		old := runtime.GOMAXPROCS(1)
-		t1 := render.ToTriangles(concshapes.As3(c2, c3), render.NewMarchingCubesUniform(cells))
-		runtime.GOMAXPROCS(16)
-		tn := render.ToTriangles(concshapes.As3(d2, d3), render.NewMarchingCubesUniform(cells))
+		s := concshapes.As3(d2, d3)
+		old := runtime.GOMAXPROCS(16)
+		tn := render.ToTriangles(s, render.NewMarchingCubesUniform(cells))
+		runtime.GOMAXPROCS(1)
+		t1 := render.ToTriangles(s, render.NewMarchingCubesUniform(cells))
 		runtime.GOMAXPROCS(old)
 		res.Tri1, res.TriN, res.Hash1, res.HashN = len(t1), len(tn), triHash(t1), triHash(tn)
 	}
@@ -472,7 +506,7 @@ func checkC10(c *Ctx, r *Report) error {
 			case o.res.Mismatches > 0:
 				r.Violate("value:"+name, fmt.Sprintf("%d of %d concurrent evaluations differ from sequential evaluation (%s); %s", o.res.Mismatches, o.res.Evals, mode, o.res.First), input)
 			case o.res.Hash1 != o.res.HashN || o.res.Tri1 != o.res.TriN:
-				r.Violate("render:"+name, fmt.Sprintf("NewMarchingCubesUniform render differs between GOMAXPROCS 1 (%d triangles, %s) and 16 (%d triangles, %s) (%s)", o.res.Tri1, o.res.Hash1, o.res.TriN, o.res.HashN, mode), input)
+				r.Violate("render:"+name, fmt.Sprintf("NewMarchingCubesUniform render of one instance differs between GOMAXPROCS 1 (%d triangles, %s) and 16 (%d triangles, %s) (%s)", o.res.Tri1, o.res.Hash1, o.res.TriN, o.res.HashN, mode), input)
 			}
 			if o.res != nil && o.res.CacheInfo != "" {
 				reads, hits, ok := parseCacheInfo(o.res.CacheInfo)
